@@ -12,7 +12,6 @@ NA = {
  "C14": "digit generation, rounding and grouping are pretty_dtoa / num_format; numbat contributes a branch and string trimming (DESIGN 5)",
  "C15": "pretty-printer <-> parser round trip over the whole AST (strings, decorators, generics): a language-level theorem, not a function contract (DESIGN 5)",
  "C16": "principal-type claim about HM-style inference with Gaussian elimination (DESIGN 5)",
- "C17": "finite configuration that must be EXECUTED (module sources are data, not code under contract) (DESIGN 5)",
  "C19": "date arithmetic, time zones and parsing are jiff's; numbat's part is an expression inline in the 500-line VM loop (DESIGN 5)",
  "C23": "the inverse pairs are written in Numbat (.nbt) or are libm / jiff calls (DESIGN 5)",
  "C24": "finite configuration that must be executed (DESIGN 5)",
@@ -42,6 +41,8 @@ TEXT = {
          "contract-based deductive verification (Verus) of the real parser level functions against a recursive grammar relation; higher-order contracts (call_requires / call_ensures) for parse_binop's closures"),
  "C22": ("other", "4.11", "PARTIAL (exit-status logic): Verus proves that the input loop of the real Cli::run returns Ok iff no evaluated input asked to stop (and then has evaluated all of them), that every error arm of parse_and_evaluate maps to exit_status_in_case_of_error, and that this is Break(Error) in normal mode. Stream routing, printing, `-e` joining, process::exit in main and the REPL are not covered.",
          "contract-based deductive verification (Verus) of the real run loop (statement-level extraction), the error arms of parse_and_evaluate (arm-level) and exit_status_in_case_of_error"),
+ "C17": ("other", "4.12", "PARTIAL (de-duplication clause): Verus proves on the real Resolver::inlining_pass that importing an already imported module changes nothing (no module is read, the import list is unchanged, the program is inlined to exactly its non-import statements in order), that the import list only grows, that a module is registered before its own imports are inlined, and that UnknownModule names a module the importer does not know. Success of every standard-library import and order-independence of the resulting definitions are not covered.",
+         "contract-based deductive verification (Verus) of the real inlining_pass (loop invariant over the statement list) and resolve"),
  "C09": ("other", "4.6", "PARTIAL: Verus proves (i) layout and little-endian round-trip contracts on the real Vm::{push_u16, add_op*, patch_u16_value_at, read_byte, read_u16}; (ii) per-arm layout contracts for 11 arms of compile_expression (identifier resolution = innermost binding, operator mapping and operand order, conditionals with their two jumps, lists / call arguments in source order, calls, function values) and the DefineFunction / expression-statement arms of compile_statement (scope = parameters ++ where-variables while the body is compiled); (iii) whole-stack postconditions for 17 arms of the VM run loop (jumps, logic, comparison, arithmetic, variables, calls and returns, structs, constants, list literals, procedure calls) plus lemmas tying (ii) and (iii) together. Not covered: struct / string / unit-identifier compiler arms, JoinString and foreign-function call arms, the dispatch loop; compile_expression at its recursive call sites is an assumed contract.",
          "contract-based deductive verification (Verus): arm-level extraction of the real compiler and VM match arms, layout/stack postconditions and lemmas"),
  "C08": ("other", "5", "PARTIAL: panic-freedom of every function under contract in all units (arithmetic overflow, indexing, unwrap/expect, unreachable!, assert!/debug_assert! become Verus obligations under the stated preconditions). NOT the whole pipeline: tokenizer, parser, type checker, Product/Unit/DType arithmetic, diagnostics and promptness are outside; the three crashes named in the statement are outside every unit and are not detected.",
